@@ -12,7 +12,7 @@
                               the tree text that start at their offset (with C01_lossless: of the parsed text) *)
 From Coq Require Import List NArith ZArith Bool String PeanoNat Lia.
 From TG.Gen Require Import GenTokens GenAst GenGrammar.
-From TG.Model Require Import Chars Lexer Prep Tree ParserPrims GInterp AstAccess CoreAst AstToCore.
+From TG.Model Require Import Chars Lexer Prep Tree ParserPrims GInterp AstAccess CoreAst AstToCore CoreParts.
 From TG.Proofs Require Import ParserTile.
 Import ListNotations.
 Close Scope string_scope.
@@ -115,3 +115,684 @@ Qed.
 
 Lemma height_field x f y : In y (field x f) -> (height (snd y) < height (snd x))%nat.
 Proof. intros H. apply height_child. eapply field_children. exact H. Qed.
+
+(** * A Hoare-style predicate on results: [Fuel] is excluded, [Err] is vacuous *)
+Definition safe {A : Type} (P : A -> Prop) (m : res A) : Prop :=
+  match m with Ok a => P a | Err _ => True | Fuel => False end.
+
+Lemma safe_bind {A B} (Q : A -> Prop) (P : B -> Prop) (m : res A) (f : A -> res B) :
+  safe Q m -> (forall a, Q a -> safe P (f a)) -> safe P (bind m f).
+Proof. destruct m as [a|e|]; cbn [safe bind]; intros H K; [apply K; exact H|exact I|exact H]. Qed.
+Lemma safe_ok {A} (P : A -> Prop) a : P a -> safe P (Ok a).
+Proof. intros H; exact H. Qed.
+Lemma safe_err {A} (P : A -> Prop) e : safe P (Err e).
+Proof. exact I. Qed.
+Lemma safe_need {A} (l : list A) w : safe (fun a => In a l) (need l w).
+Proof. destruct l; cbn [need safe]; [exact I|left; reflexivity]. Qed.
+Lemma safe_need_opt {A} (o : option A) w : safe (fun a => o = Some a) (need_opt o w).
+Proof. destruct o; cbn [need_opt safe]; [reflexivity|exact I]. Qed.
+Lemma safe_mapM {A B} (P : B -> Prop) (f : A -> res B) (l : list A) :
+  (forall x, In x l -> safe P (f x)) -> safe (Forall P) (mapM f l).
+Proof.
+  induction l as [|x l IH]; intros H; cbn [mapM].
+  - constructor.
+  - eapply safe_bind; [apply H; left; reflexivity|]. intros y Hy.
+    eapply safe_bind; [apply IH; intros z Hz; apply H; right; exact Hz|]. intros ys Hys.
+    cbn [safe]. constructor; assumption.
+Qed.
+Lemma safe_weaken {A} (P Q : A -> Prop) m : safe P m -> (forall a, P a -> Q a) -> safe Q m.
+Proof. destruct m; cbn [safe]; auto. Qed.
+Lemma safe_opt_with {A} (P : A -> Prop) (f : lnode -> res A) (l : list lnode) :
+  (forall x, In x l -> safe P (f x)) -> safe (fun o => match o with Some a => P a | None => True end) (opt_with f l).
+Proof.
+  destruct l as [|v r]; intros H; cbn [opt_with]; [exact I|].
+  eapply safe_bind; [apply H; left; reflexivity|]. intros a Ha. exact Ha.
+Qed.
+
+(** * What a produced range / identifier is *)
+Definition part_ok (t : tree) (f : N) (p : part) : Prop :=
+  match p with
+  | PR r => r_file r = f /\ exists x, sub t x /\ r_lo r = fst x /\ r_hi r = l_end x
+  | PI i => r_file (i_rng i) = f /\
+            exists x o k txt, sub t x /\ l_kind x = S_Identifier /\ first_token x = Some (o, Tok k txt) /\
+                              r_lo (i_rng i) = o /\ r_hi (i_rng i) = o + bytes txt /\ i_name i = txt
+  end.
+Definition parts_ok (t : tree) (f : N) (l : list part) : Prop := Forall (part_ok t f) l.
+
+Lemma parts_ok_app t f a b : parts_ok t f a -> parts_ok t f b -> parts_ok t f (a ++ b).
+Proof. intros; apply Forall_app; split; assumption. Qed.
+Lemma parts_ok_cons t f a b : part_ok t f a -> parts_ok t f b -> parts_ok t f (a :: b).
+Proof. intros; constructor; assumption. Qed.
+Lemma parts_ok_nil t f : parts_ok t f [].
+Proof. constructor. Qed.
+Lemma parts_ok_flat_map {A} t f (g : A -> list part) (l : list A) :
+  Forall (fun a => parts_ok t f (g a)) l -> parts_ok t f (flat_map g l).
+Proof. induction 1; cbn [flat_map]; [constructor|apply parts_ok_app; assumption]. Qed.
+Lemma parts_ok_opt {A} t f (g : A -> list part) (o : option A) :
+  match o with Some a => parts_ok t f (g a) | None => True end -> parts_ok t f (opt_parts g o).
+Proof. destruct o; cbn [opt_parts]; [auto|intros; constructor]. Qed.
+
+Lemma rng_of_ok t c x : sub t x -> part_ok t (cx_file c) (PR (rng_of c x)).
+Proof. intros S. cbn [part_ok rng_of r_file r_lo r_hi]. split; [reflexivity|]. exists x. auto. Qed.
+
+Lemma m_identifier_ok t c x i : sub t x -> l_kind x = S_Identifier -> m_identifier c x = Some i -> part_ok t (cx_file c) (PI i).
+Proof.
+  intros S K E. unfold m_identifier in E. destruct (first_token x) as [[o [k cs|k txt]]|] eqn:F; try discriminate.
+  inversion E; subst i. cbn [part_ok i_rng i_name r_file r_lo r_hi]. split; [reflexivity|].
+  exists x, o, k, txt. auto 10.
+Qed.
+
+Lemma sk_eqb_true a b : sk_eqb a b = true -> a = b.
+Proof. apply sk_eqb_eq. Qed.
+
+Lemma c_ident_safe t c x : sub t x -> safe (fun i => part_ok t (cx_file c) (PI i)) (c_ident c x).
+Proof.
+  intros S. unfold c_ident. destruct (sk_eqb (l_kind x) S_Identifier) eqn:K; [|exact I].
+  apply sk_eqb_true in K. destruct (m_identifier c x) as [i|] eqn:E; cbn [need_opt safe]; [|exact I].
+  eapply m_identifier_ok; eauto.
+Qed.
+
+(** * The translators: every produced part is a part of the tree, and the fuel suffices *)
+Ltac hts :=
+  repeat match goal with
+         | H : In ?y (field ?x ?f) |- _ =>
+             lazymatch goal with
+             | _ : (height (snd y) < height (snd x))%nat |- _ => fail
+             | _ => pose proof (height_field x f y H)
+             end
+         end; lia.
+Ltac subs := eauto 8 using field_sub.
+Ltac sneed := eapply safe_bind; [apply safe_need|]; intros ? ?; cbv beta in *.
+Ltac sident := eapply safe_bind; [apply c_ident_safe; subs|]; intros ? ?; cbv beta in *.
+
+Section Translators.
+Variable t : tree.
+Variable c : cx.
+Notation f := (cx_file c).
+Notation POK := (parts_ok t (cx_file c)).
+
+Lemma c_typ_safe : forall n x, sub t x -> (height (snd x) < n)%nat ->
+  safe (fun ty => POK (ty_parts ty)) (c_typ n c x).
+Proof.
+  induction n as [|n IH]; intros x S H; [lia|].
+  cbn [c_typ]. destruct (l_kind x); try exact I; try (cbn [safe ty_parts]; apply parts_ok_nil).
+  - sneed. eapply safe_bind; [apply safe_need_opt|]. intros v Hv.
+    destruct (v <? 0)%Z; cbn [safe ty_parts]; [exact I|apply parts_ok_nil].
+  - sneed. eapply safe_bind; [apply IH; [subs|hts]|]. intros ty Hty. exact Hty.
+  - sneed. sident. cbn [safe ty_parts]. apply parts_ok_cons; [assumption|apply parts_ok_nil].
+Qed.
+
+Lemma c_suffix_safe x : sub t x -> safe (fun s => POK (suffix_parts s)) (c_suffix c x).
+Proof.
+  intros S. unfold c_suffix. destruct (l_kind x); try exact I; try (cbn [safe suffix_parts]; apply parts_ok_nil).
+  sneed. sident. cbn [safe suffix_parts]. apply parts_ok_cons; [assumption|]. apply parts_ok_cons; [apply rng_of_ok; exact S|apply parts_ok_nil].
+Qed.
+
+Lemma in_dag_values l v : In v (dag_values l) -> exists a, In a l /\ In v (field a "value").
+Proof. unfold dag_values. intros H. apply in_flat_map in H. exact H. Qed.
+
+Lemma safe_args_with (g : lnode -> res arg) (l : list lnode) :
+  (forall avl a, In avl l -> In a (field avl "arg_values") -> safe (fun r => POK (arg_parts r)) (g a)) ->
+  safe (fun r => POK (flat_map arg_parts r)) (args_with g l).
+Proof.
+  destruct l as [|avl r]; intros H; cbn [args_with].
+  - cbn [safe flat_map]. apply parts_ok_nil.
+  - eapply safe_weaken; [apply safe_mapM; intros a Ha; eapply H; [left; reflexivity|exact Ha]|].
+    intros r0 Hr. apply parts_ok_flat_map. exact Hr.
+Qed.
+
+Lemma mapM_in {A B} (g : A -> res B) : forall (l : list A) ys, mapM g l = Ok ys -> forall y, In y ys -> exists x, In x l /\ g x = Ok y.
+Proof.
+  induction l as [|x l IH]; intros ys E y Hy; cbn [mapM] in E.
+  - inversion E; subst. contradiction.
+  - destruct (g x) as [b| |] eqn:G; cbn [bind] in E; try discriminate.
+    destruct (mapM g l) as [bs| |] eqn:M; cbn [bind] in E; try discriminate.
+    inversion E; subst. destruct Hy as [<-|Hy]; [exists x; split; [left; reflexivity|exact G]|].
+    destruct (IH bs eq_refl y Hy) as (x0 & I0 & G0). exists x0. split; [right; exact I0|exact G0].
+Qed.
+
+Lemma values_safe_all : forall n,
+  (forall x, sub t x -> (height (snd x) < n)%nat -> safe (fun v => POK (value_parts v)) (c_value n c x)) /\
+  (forall x, sub t x -> (height (snd x) < n)%nat -> safe (fun v => POK (inner_parts v)) (c_inner n c x)) /\
+  (forall x, sub t x -> (height (snd x) < n)%nat -> safe (fun v => POK (simple_parts v)) (c_simple n c x)) /\
+  (forall x, sub t x -> (height (snd x) < n)%nat -> safe (fun v => POK (arg_parts v)) (c_arg n c x)).
+Proof.
+  induction n as [|n (IHv & IHi & IHs & IHa)]; [repeat split; intros; lia|].
+  assert (VS : forall l, (forall y, In y l -> sub t y /\ (height (snd y) < n)%nat) ->
+                         safe (fun vs => POK (flat_map value_parts vs)) (mapM (c_value n c) l)).
+  { intros l Hl. eapply safe_weaken; [apply safe_mapM; intros y Hy; apply IHv; apply Hl; exact Hy|].
+    intros vs Hvs. apply parts_ok_flat_map. exact Hvs. }
+  repeat split; intros x S H.
+  - (* value *)
+    cbn [c_value]. eapply safe_bind; [apply safe_mapM; intros y Hy; apply IHi; [subs|hts]|].
+    intros inners Hin. destruct inners as [|i0 ir]; [exact I|]. cbn [safe value_parts].
+    apply parts_ok_cons; [apply rng_of_ok; exact S|]. apply parts_ok_flat_map. exact Hin.
+  - (* inner *)
+    cbn [c_inner]. sneed. eapply safe_bind; [apply IHs; [subs|hts]|]. intros s Hs.
+    eapply safe_bind; [apply safe_mapM; intros y Hy; apply c_suffix_safe; subs|]. intros sufs Hsufs.
+    cbn [safe inner_parts]. apply parts_ok_app; [exact Hs|]. apply parts_ok_flat_map. exact Hsufs.
+  - (* simple *)
+    cbn [c_simple]. destruct (l_kind x) eqn:K; try exact I; try (cbn [safe simple_parts]; apply parts_ok_nil).
+    + (* Bits *) sneed. eapply safe_bind; [apply VS; intros y Hy; split; [subs|hts]|]. intros vs Hvs. exact Hvs.
+    + (* List *) sneed. eapply safe_bind; [apply VS; intros y Hy; split; [subs|hts]|]. intros vs Hvs. exact Hvs.
+    + (* Dag *)
+      eapply safe_bind; [apply VS|intros vs Hvs; exact Hvs].
+      intros y Hy. apply in_app_or in Hy. destruct Hy as [Hy|Hy].
+      * apply in_dag_values in Hy. destruct Hy as (a & Ha & Hy). split; [subs|hts].
+      * destruct (field x "arg_list") as [|al r] eqn:AL; [contradiction|].
+        assert (Hal : In al (field x "arg_list")) by (rewrite AL; left; reflexivity).
+        apply in_dag_values in Hy. destruct Hy as (a & Ha & Hy). split; [subs|hts].
+    + (* Identifier *)
+      eapply safe_bind; [apply c_ident_safe; exact S|]. intros i Hi. cbn [safe simple_parts].
+      apply parts_ok_cons; [exact Hi|apply parts_ok_nil].
+    + (* ClassValue *)
+      sneed. sident.
+      eapply safe_bind; [apply safe_args_with; intros avl ar Havl Har; apply IHa; [subs|hts]|]. intros args Hargs.
+      cbn [safe simple_parts]. apply parts_ok_cons; [assumption|]. apply parts_ok_cons; [apply rng_of_ok; exact S|exact Hargs].
+    + (* BangOperator *)
+      eapply safe_bind; [apply safe_need_opt|]. intros k Hk.
+      eapply safe_bind.
+      { apply (safe_opt_with (fun p : ty * rng => POK (PR (snd p) :: ty_parts (fst p)))).
+        intros y Hy. eapply safe_bind; [apply c_typ_safe; [subs|hts]|]. intros ty Hty. cbn [safe fst snd].
+        apply parts_ok_cons; [apply rng_of_ok; subs|exact Hty]. }
+      intros annot Hannot.
+      eapply safe_bind; [apply VS; intros y Hy; split; [subs|hts]|]. intros vs Hvs.
+      destruct (bop_of_kind k); [|exact I]. cbn [safe simple_parts].
+      apply parts_ok_cons; [apply rng_of_ok; exact S|]. apply parts_ok_app; [|exact Hvs].
+      destruct annot as [[ty tr]|]; [exact Hannot|apply parts_ok_nil].
+    + (* CondOperator *)
+      destruct (mapM (fun cl => cn <- need (field cl "condition") "cond condition" ;;
+                                v <- need (field cl "value") "cond value" ;; Ok [cn; v]) (field x "clauses")) as [cvs| |] eqn:M;
+        cbn [bind]; [|exact I|].
+      * eapply safe_bind; [apply VS|intros vs Hvs; exact Hvs].
+        intros y Hy. apply in_concat in Hy. destruct Hy as (l & Hl & Hy).
+        destruct (mapM_in _ _ _ M l Hl) as (cl & Hcl & E).
+        destruct (field cl "condition") as [|cn r1] eqn:C1; cbn [need bind] in E; [discriminate|].
+        destruct (field cl "value") as [|v r2] eqn:C2; cbn [need bind] in E; [discriminate|].
+        inversion E; subst l.
+        assert (I1 : In cn (field cl "condition")) by (rewrite C1; left; reflexivity).
+        assert (I2 : In v (field cl "value")) by (rewrite C2; left; reflexivity).
+        destruct Hy as [<-|[<-|[]]]; (split; [subs|hts]).
+      * (* the clause collector never runs out of fuel *)
+        exfalso. clear -M. revert M. generalize (field x "clauses"). intros l. induction l as [|cl l IH]; cbn [mapM]; [discriminate|].
+        destruct (field cl "condition"); cbn [need bind]; [discriminate|].
+        destruct (field cl "value"); cbn [need bind]; [discriminate|].
+        destruct (mapM _ l); cbn [bind]; try discriminate. intros _. apply IH. reflexivity.
+  - (* arg *)
+    cbn [c_arg]. destruct (l_kind x) eqn:K; try exact I.
+    + (* Positional *)
+      sneed. eapply safe_bind; [apply IHv; [subs|hts]|]. intros v' Hv'. cbn [safe arg_parts].
+      apply parts_ok_cons; [apply rng_of_ok; exact S|exact Hv'].
+    + (* Named *)
+      sneed. sneed. sneed. destruct (l_kind a1); try exact I; try (cbn [safe arg_parts]; apply parts_ok_cons; [apply rng_of_ok; exact S|apply parts_ok_nil]).
+      * sneed. eapply safe_bind; [apply IHv; [subs|hts]|]. intros v' Hv'. cbn [safe arg_parts].
+        apply parts_ok_cons; [apply rng_of_ok; exact S|exact Hv'].
+      * eapply safe_bind; [apply safe_need_opt|]. intros i Hi.
+        sneed. eapply safe_bind; [apply IHv; [subs|hts]|]. intros v' Hv'. cbn [safe arg_parts].
+        apply parts_ok_cons; [apply rng_of_ok; exact S|exact Hv'].
+Qed.
+
+Lemma c_value_safe n x : sub t x -> (height (snd x) < n)%nat -> safe (fun v => POK (value_parts v)) (c_value n c x).
+Proof. apply (values_safe_all n). Qed.
+Lemma c_arg_safe n x : sub t x -> (height (snd x) < n)%nat -> safe (fun v => POK (arg_parts v)) (c_arg n c x).
+Proof. apply (values_safe_all n). Qed.
+
+Ltac svalue := eapply safe_bind; [apply c_value_safe; [subs|hts]|]; intros ? ?; cbv beta in *.
+Ltac styp := eapply safe_bind; [apply c_typ_safe; [subs|hts]|]; intros ? ?; cbv beta in *.
+
+Lemma c_values_safe n l : (forall y, In y l -> sub t y /\ (height (snd y) < n)%nat) ->
+  safe (fun vs => POK (flat_map value_parts vs)) (c_values n c l).
+Proof.
+  intros Hl. unfold c_values. eapply safe_weaken; [apply safe_mapM; intros y Hy; apply c_value_safe; apply Hl; exact Hy|].
+  intros vs Hvs. apply parts_ok_flat_map. exact Hvs.
+Qed.
+
+Lemma c_opt_value_safe n l : (forall y, In y l -> sub t y /\ (height (snd y) < n)%nat) ->
+  safe (fun o => POK (opt_parts value_parts o)) (c_opt_value n c l).
+Proof.
+  intros Hl. unfold c_opt_value. eapply safe_weaken; [apply safe_opt_with; intros y Hy; apply c_value_safe; apply Hl; exact Hy|].
+  intros o Ho. apply parts_ok_opt. exact Ho.
+Qed.
+
+Lemma c_args_safe n x fld : sub t x -> (height (snd x) <= n)%nat ->
+  safe (fun r => POK (flat_map arg_parts r)) (c_args n c (field x fld)).
+Proof.
+  intros S H. unfold c_args. apply safe_args_with. intros avl a Havl Ha. apply c_arg_safe; [subs|hts].
+Qed.
+
+Lemma c_targs_safe n x fld : sub t x -> (height (snd x) <= n)%nat ->
+  safe (fun o => POK (opt_parts (flat_map targ_parts) o)) (c_targs n c (field x fld)).
+Proof.
+  intros S H. unfold c_targs. eapply safe_weaken.
+  - apply (safe_opt_with (fun l => POK (flat_map targ_parts l))). intros tl Htl.
+    eapply safe_weaken; [apply (safe_mapM (fun a => POK (targ_parts a)))|intros l Hl; apply parts_ok_flat_map; exact Hl].
+    intros a Ha. sneed. styp. sneed. sident.
+    eapply safe_bind; [apply c_opt_value_safe; intros y Hy; split; [subs|hts]|]. intros d Hd.
+    cbn [safe targ_parts]. apply parts_ok_app; [assumption|]. apply parts_ok_cons; assumption.
+  - intros o Ho. apply parts_ok_opt. exact Ho.
+Qed.
+
+Lemma c_parents_safe n pl : sub t pl -> (height (snd pl) < n)%nat ->
+  safe (fun l => POK (flat_map classref_parts l)) (c_parents n c pl).
+Proof.
+  intros S H. unfold c_parents.
+  eapply safe_weaken; [apply (safe_mapM (fun a => POK (classref_parts a)))|intros l Hl; apply parts_ok_flat_map; exact Hl].
+  intros cr Hcr. sneed. sident.
+  eapply safe_bind; [apply c_args_safe; [subs|hts]|]. intros avs Havs.
+  cbn [safe classref_parts]. apply parts_ok_cons; [assumption|]. apply parts_ok_cons; [apply rng_of_ok; subs|exact Havs].
+Qed.
+
+Lemma c_item_safe n x : sub t x -> (height (snd x) < n)%nat -> safe (fun i => POK (item_parts i)) (c_item n c x).
+Proof.
+  intros S H. unfold c_item. destruct (l_kind x); try exact I.
+  - (* Defvar *) sneed. sident. sneed. svalue. cbn [safe item_parts]. apply parts_ok_cons; assumption.
+  - (* Dump *) sneed. svalue. cbn [safe item_parts]. assumption.
+  - (* Assert *) sneed. svalue. sneed. svalue. cbn [safe item_parts]. apply parts_ok_app; assumption.
+  - (* FieldDef *) sneed. styp. sneed. sident.
+    eapply safe_bind; [apply c_opt_value_safe; intros y Hy; split; [subs|hts]|]. intros d Hd.
+    cbn [safe item_parts]. apply parts_ok_app; [assumption|]. apply parts_ok_cons; assumption.
+  - (* FieldLet *) sneed. sident. sneed. svalue. cbn [safe item_parts]. apply parts_ok_cons; assumption.
+Qed.
+
+Lemma c_record_body_safe n rb : sub t rb -> (height (snd rb) < n)%nat ->
+  safe (fun b => POK (flat_map classref_parts (fst b)) /\ POK (flat_map item_parts (snd b))) (c_record_body n c rb).
+Proof.
+  intros S H. unfold c_record_body. sneed. sneed.
+  eapply safe_bind; [apply (safe_mapM (fun a => POK (item_parts a))); intros y Hy; apply c_item_safe; [subs|hts]|]. intros items Hitems.
+  eapply safe_bind; [apply c_parents_safe; [subs|hts]|]. intros ps Hps.
+  cbn [safe fst snd]. split; [exact Hps|apply parts_ok_flat_map; exact Hitems].
+Qed.
+
+Lemma stmts_safe_all : forall n,
+  (forall x, sub t x -> (height (snd x) < n)%nat -> safe (fun l => POK (flat_map stmt_parts l)) (c_stmts n c x)) /\
+  (forall x, sub t x -> (height (snd x) < n)%nat -> safe (fun s => POK (stmt_parts s)) (c_stmt n c x)).
+Proof.
+  induction n as [|n (IHl & IHs)]; [split; intros; lia|].
+  split; intros x S H.
+  - cbn [c_stmts]. eapply safe_weaken; [apply (safe_mapM (fun a => POK (stmt_parts a))); intros y Hy; apply IHs; [subs|hts]|].
+    intros l Hl. apply parts_ok_flat_map. exact Hl.
+  - assert (SL : forall y, sub t y -> (height (snd y) < n)%nat -> safe (fun l => POK (flat_map stmt_parts l)) (c_stmts n c y)) by exact IHl.
+    cbn [c_stmt]. destruct (l_kind x); try exact I.
+    + (* Include *) sneed. cbn [safe stmt_parts]. apply parts_ok_cons; [apply rng_of_ok; exact S|apply parts_ok_nil].
+    + (* Class *) sneed. sident.
+      eapply safe_bind; [apply c_targs_safe; [exact S|hts]|]. intros ta Hta.
+      sneed. eapply safe_bind; [apply c_record_body_safe; [subs|hts]|]. intros b [Hb1 Hb2].
+      cbn [safe stmt_parts]. apply parts_ok_cons; [assumption|]. apply parts_ok_app; [assumption|]. apply parts_ok_app; assumption.
+    + (* Def *)
+      eapply safe_bind; [apply c_opt_value_safe; intros y Hy; split; [subs|hts]|]. intros nm Hnm.
+      sneed. eapply safe_bind; [apply c_record_body_safe; [subs|hts]|]. intros b [Hb1 Hb2].
+      cbn [safe stmt_parts]. apply parts_ok_app; [assumption|]. apply parts_ok_cons; [apply rng_of_ok; exact S|]. apply parts_ok_app; assumption.
+    + (* Let *)
+      sneed.
+      destruct (mapM (fun it => need (field it "value") "let item value") (field a "items")) as [vs| |] eqn:M; cbn [bind]; [|exact I|].
+      * eapply safe_bind.
+        { apply c_values_safe. intros y Hy. destruct (mapM_in _ _ _ M y Hy) as (it & Hit & E).
+          destruct (field it "value") as [|v r] eqn:C1; cbn [need] in E; [discriminate|]. inversion E; subst y.
+          assert (I1 : In v (field it "value")) by (rewrite C1; left; reflexivity). split; [subs|hts]. }
+        intros vs' Hvs'. sneed. eapply safe_bind; [apply SL; [subs|hts]|]. intros b Hb.
+        cbn [safe stmt_parts]. apply parts_ok_app; assumption.
+      * exfalso. clear -M. revert M. generalize (field a "items"). intros l. induction l as [|it l IH]; cbn [mapM]; [discriminate|].
+        destruct (field it "value"); cbn [need bind]; [discriminate|].
+        destruct (mapM _ l); cbn [bind]; try discriminate. intros _. apply IH. reflexivity.
+    + (* MultiClass *) sneed. sident.
+      eapply safe_bind; [apply c_targs_safe; [exact S|hts]|]. intros ta Hta.
+      sneed. eapply safe_bind; [apply c_parents_safe; [subs|hts]|]. intros ps Hps.
+      sneed. eapply safe_bind; [apply SL; [subs|hts]|]. intros b Hb.
+      cbn [safe stmt_parts]. apply parts_ok_cons; [assumption|]. apply parts_ok_app; [assumption|]. apply parts_ok_app; assumption.
+    + (* Defm *)
+      eapply safe_bind; [apply c_opt_value_safe; intros y Hy; split; [subs|hts]|]. intros nm Hnm.
+      sneed. eapply safe_bind; [apply c_parents_safe; [subs|hts]|]. intros ps Hps.
+      cbn [safe stmt_parts]. apply parts_ok_app; [assumption|]. apply parts_ok_cons; [apply rng_of_ok; exact S|assumption].
+    + (* Defset *) sneed. styp. sneed. sident. sneed. eapply safe_bind; [apply SL; [subs|hts]|]. intros b Hb.
+      cbn [safe stmt_parts]. apply parts_ok_app; [assumption|]. apply parts_ok_cons; assumption.
+    + (* Defvar *) sneed. sident. sneed. svalue. cbn [safe stmt_parts]. apply parts_ok_cons; assumption.
+    + (* Dump *) sneed. svalue. cbn [safe stmt_parts]. assumption.
+    + (* Foreach *) sneed. sneed.
+      eapply safe_bind.
+      { instantiate (1 := fun init => POK (match init with FeRange => [] | FeValue v => value_parts v end)).
+        destruct (l_kind a0); try exact I; try (cbn [safe]; apply parts_ok_nil).
+        svalue. cbn [safe]. assumption. }
+      intros init Hinit. sneed. sident. sneed. eapply safe_bind; [apply SL; [subs|hts]|]. intros b Hb.
+      cbn [safe stmt_parts]. apply parts_ok_cons; [assumption|]. apply parts_ok_app; assumption.
+    + (* If *) sneed. svalue. sneed. eapply safe_bind; [apply SL; [subs|hts]|]. intros th Hth.
+      eapply safe_bind; [apply (safe_opt_with (fun l => POK (flat_map stmt_parts l))); intros y Hy; apply SL; [subs|hts]|]. intros el Hel.
+      cbn [safe stmt_parts]. apply parts_ok_app; [assumption|]. apply parts_ok_app; [assumption|]. apply parts_ok_opt. exact Hel.
+    + (* Assert *) sneed. svalue. sneed. svalue. cbn [safe stmt_parts]. apply parts_ok_app; assumption.
+Qed.
+
+Lemma c_file_safe n root : sub t root -> (height (snd root) < n)%nat ->
+  safe (fun l => POK (flat_map stmt_parts l)) (c_file n c root).
+Proof.
+  intros S H. unfold c_file. destruct (l_kind root); try exact I. destruct (snd root) eqn:E; [rewrite <- E in H|exact I].
+  sneed. apply (stmts_safe_all n); [subs|hts].
+Qed.
+End Translators.
+
+(** * The theorems *)
+Theorem core_of_tree_safe : forall file links t,
+  safe (fun ss => parts_ok t file (flat_map stmt_parts ss)) (core_of_tree file links t).
+Proof.
+  intros file links t. unfold core_of_tree.
+  apply (c_file_safe t (mkCx file links)); [constructor|cbn [snd]; lia].
+Qed.
+
+(** (c) totality: the translation never runs out of fuel: on EVERY tree it returns a Core AST or a "noncore" reason *)
+Theorem core_of_tree_total : forall file links t, core_of_tree file links t <> Fuel.
+Proof. intros file links t E. pose proof (core_of_tree_safe file links t) as H. rewrite E in H. exact H. Qed.
+
+Theorem core_of_tree_opt_spec : forall file links t,
+  (exists ss, core_of_tree file links t = Ok ss /\ core_of_tree_opt file links t = Some ss) \/
+  (exists why, core_of_tree file links t = Err why /\ core_of_tree_opt file links t = None).
+Proof.
+  intros file links t. unfold core_of_tree_opt. destruct (core_of_tree file links t) as [ss|why|] eqn:E.
+  - left. exists ss. auto.
+  - right. exists why. auto.
+  - exfalso. eapply core_of_tree_total. exact E.
+Qed.
+
+(** * Located subtrees are entries of Tree.descendants / Tree.leaves and slices of the tree text *)
+Lemma with_offsets_split : forall cs o oy c, In (oy, c) (with_offsets o cs) ->
+  exists a b, cs = a ++ c :: b /\ oy = o + forest_len a.
+Proof.
+  induction cs as [|d r IH]; intros o oy c H; cbn [with_offsets] in H; [contradiction|].
+  destruct H as [E|H].
+  - inversion E; subst. exists [], r. split; [reflexivity|]. unfold forest_len. cbn [fold_right]. lia.
+  - destruct (IH _ _ _ H) as (a & b & -> & ->). exists (d :: a), b. split; [reflexivity|].
+    unfold forest_len. cbn [fold_right]. lia.
+Qed.
+
+Lemma tree_len_bytes' t0 : tree_len t0 = bytes (tree_text t0).
+Proof. destruct (leaves_from_spec t0 0) as (_ & _ & H). exact H. Qed.
+
+Lemma forest_len_bytes a : forest_len a = bytes (forest_text a).
+Proof.
+  induction a as [|c r IH]; [reflexivity|]. unfold forest_len, forest_text in *. cbn [fold_right map]. rewrite concat_cons.
+  rewrite bytes_app, <- IH, tree_len_bytes'. reflexivity.
+Qed.
+
+Theorem sub_slice t x : sub t x ->
+  exists pre suf, tree_text t = pre ++ tree_text (snd x) ++ suf /\ fst x = bytes pre.
+Proof.
+  induction 1 as [|x y S (pre & suf & E & O) Hy].
+  - exists [], []. cbn [fst snd app bytes]. rewrite app_nil_r. auto.
+  - destruct x as [o [k cs|k tx]]; unfold lchildren in Hy; cbn [fst snd children_of] in Hy, E, O; [|contradiction].
+    destruct y as [oy c]. destruct (with_offsets_split _ _ _ _ Hy) as (a & b & -> & ->).
+    exists (pre ++ forest_text a), (forest_text b ++ suf). cbn [fst snd]. split.
+    + rewrite E, tree_text_node, forest_text_app. unfold forest_text at 2. cbn [map]. rewrite concat_cons.
+      fold (forest_text b). rewrite <- !app_assoc. reflexivity.
+    + rewrite bytes_app, forest_len_bytes, O. reflexivity.
+Qed.
+
+(** the subtree at a located node: its end is its start plus the bytes of its text *)
+Lemma l_end_bytes x : l_end x = fst x + bytes (tree_text (snd x)).
+Proof. unfold l_end. rewrite tree_len_bytes'. reflexivity. Qed.
+
+(** descendants / leaves of a forest at an offset (the inner fixes of Tree.descendants_from / leaves_from) *)
+Fixpoint forest_desc (o : N) (l : list tree) : list (N * N * tree) :=
+  match l with [] => [] | c :: r => descendants_from o c ++ forest_desc (o + tree_len c) r end.
+
+Lemma descendants_from_node k cs off :
+  descendants_from off (Node k cs) = (off, off + tree_len (Node k cs), Node k cs) :: forest_desc off cs.
+Proof.
+  cbn [descendants_from]. apply f_equal. revert off. induction cs as [|c r IH]; intros o; [reflexivity|].
+  cbn [forest_desc]. rewrite <- (IH (o + tree_len c)). reflexivity.
+Qed.
+
+Lemma forest_desc_in : forall cs o oy c, In (oy, c) (with_offsets o cs) ->
+  forall d, In d (descendants_from oy c) -> In d (forest_desc o cs).
+Proof.
+  induction cs as [|e r IH]; intros o oy c H d Hd; cbn [with_offsets] in H; [contradiction|].
+  cbn [forest_desc]. apply in_or_app. destruct H as [E|H].
+  - inversion E; subst. left. exact Hd.
+  - right. eapply IH; eauto.
+Qed.
+Lemma forest_leaves_in : forall cs o oy c, In (oy, c) (with_offsets o cs) ->
+  forall d, In d (leaves_from oy c) -> In d (forest_leaves o cs).
+Proof.
+  induction cs as [|e r IH]; intros o oy c H d Hd; cbn [with_offsets] in H; [contradiction|].
+  cbn [forest_leaves]. apply in_or_app. destruct H as [E|H].
+  - inversion E; subst. left. exact Hd.
+  - right. eapply IH; eauto.
+Qed.
+
+(** what it means for a located subtree to be an entry of the tree's descendants (nodes) / leaves (tokens) *)
+Definition entry_of (o : N) (t0 : tree) (y : lnode) : Prop :=
+  match snd y with
+  | Node _ _ => In (fst y, l_end y, snd y) (descendants_from o t0)
+  | Tok k tx => In (k, fst y, fst y + bytes tx, tx) (leaves_from o t0)
+  end.
+
+Lemma entry_self o t0 : entry_of o t0 (o, t0).
+Proof.
+  unfold entry_of. cbn [fst snd]. destruct t0 as [k cs|k tx].
+  - rewrite descendants_from_node. left. reflexivity.
+  - cbn [leaves_from]. left. reflexivity.
+Qed.
+
+(** entries are closed under taking children *)
+Lemma tree_ind_forall (P : tree -> Prop) :
+  (forall k tx, P (Tok k tx)) -> (forall k cs, Forall P cs -> P (Node k cs)) -> forall t0, P t0.
+Proof.
+  intros HT HN. fix IH 1. intros [k cs|k tx]; [|apply HT].
+  apply HN. induction cs as [|c r IHr]; constructor; [apply IH|exact IHr].
+Qed.
+
+Lemma entry_trans : forall t0 o x, entry_of o t0 x -> forall y, In y (lchildren x) -> entry_of o t0 y.
+Proof.
+  induction t0 as [k tx|k cs IHcs] using tree_ind_forall; intros o x Hx y Hy; [rename k into k0|].
+  2: assert (IH : forall c, In c cs -> forall o1 x1, entry_of o1 c x1 -> forall y1, In y1 (lchildren x1) -> entry_of o1 c y1)
+       by (rewrite Forall_forall in IHcs; exact IHcs).
+  2: clear IHcs.
+  all: swap 1 2.
+  - destruct x as [ox [kx csx|kx txx]]; [|unfold lchildren in Hy; cbn in Hy; contradiction].
+    unfold entry_of in Hx. cbn [fst snd] in Hx. rewrite descendants_from_node in Hx. destruct Hx as [E|Hx].
+    + (* x is the root: y is a child of the root *)
+      inversion E; subst ox kx csx. unfold lchildren in Hy. cbn [fst snd children_of] in Hy. destruct y as [oy c].
+      pose proof (entry_self oy c) as Hs. unfold entry_of in *. cbn [fst snd] in *. destruct c as [kc csc|kc txc].
+      * rewrite descendants_from_node. right. eapply forest_desc_in; [exact Hy|exact Hs].
+      * rewrite leaves_from_node. eapply forest_leaves_in; [exact Hy|exact Hs].
+    + (* x lies below a child c of the root *)
+      assert (G : forall l o0, In (ox, l_end (ox, Node kx csx), Node kx csx) (forest_desc o0 l) ->
+                               (forall c, In c l -> forall o1 x1, entry_of o1 c x1 -> forall y1, In y1 (lchildren x1) -> entry_of o1 c y1) ->
+                               match snd y with
+                               | Node _ _ => In (fst y, l_end y, snd y) (forest_desc o0 l)
+                               | Tok k0 tx0 => In (k0, fst y, fst y + bytes tx0, tx0) (forest_leaves o0 l)
+                               end).
+      { induction l as [|c r IHl]; intros o0 Hin Hc; cbn [forest_desc] in Hin; [contradiction|].
+        apply in_app_or in Hin. destruct Hin as [Hin|Hin].
+        - assert (Ex : entry_of o0 c (ox, Node kx csx)) by (unfold entry_of; cbn [fst snd]; exact Hin).
+          pose proof (Hc c (or_introl eq_refl) o0 _ Ex y Hy) as Ey. unfold entry_of in Ey.
+          destruct (snd y); cbn [forest_desc forest_leaves]; apply in_or_app; left; exact Ey.
+        - specialize (IHl (o0 + tree_len c) Hin (fun c0 H0 => Hc c0 (or_intror H0))).
+          destruct (snd y); cbn [forest_desc forest_leaves]; apply in_or_app; right; exact IHl. }
+      specialize (G cs o Hx IH). unfold entry_of. destruct (snd y) eqn:Ey.
+      * rewrite descendants_from_node. right. exact G.
+      * rewrite leaves_from_node. exact G.
+  - (* the root is a token: its only entry is itself, which has no children *)
+    unfold entry_of in Hx. destruct x as [ox [kx csx|kx txx]]; cbn [fst snd] in Hx.
+    + cbn [descendants_from] in Hx. contradiction.
+    + unfold lchildren in Hy. cbn in Hy. contradiction.
+Qed.
+
+(** "the range of a node or token of t": every located subtree is an entry of [descendants t] (with exactly its
+    range) or of [leaves t] (with exactly its range and text) *)
+Theorem sub_in_tree t y : sub t y ->
+  match snd y with
+  | Node _ _ => In (fst y, l_end y, snd y) (descendants t)
+  | Tok k tx => In (k, fst y, fst y + bytes tx, tx) (leaves t)
+  end.
+Proof.
+  intros S. change (entry_of 0 t y). induction S as [|x y S IH Hy]; [apply entry_self|]. eapply entry_trans; eauto.
+Qed.
+
+(** * (a) every range of the Core AST is the range of a node or a token of the tree *)
+Definition in_tree (t : tree) (lo hi : N) : Prop :=
+  (exists n, In (lo, hi, n) (descendants t)) \/ (exists k tx, In (k, lo, hi, tx) (leaves t)).
+
+Lemma sub_range_in_tree t x : sub t x -> in_tree t (fst x) (l_end x).
+Proof.
+  intros S. pose proof (sub_in_tree t x S) as H. destruct x as [o [k cs|k tx]]; cbn [fst snd] in *.
+  - left. exists (Node k cs). exact H.
+  - right. exists k, tx. unfold l_end. cbn [fst snd tree_len]. exact H.
+Qed.
+
+Lemma part_ok_in_tree t f p : part_ok t f p ->
+  r_file (part_rng p) = f /\ in_tree t (r_lo (part_rng p)) (r_hi (part_rng p)).
+Proof.
+  destruct p as [r|i]; cbn [part_ok part_rng].
+  - intros (F & x & S & L & H). split; [exact F|]. rewrite L, H. apply sub_range_in_tree. exact S.
+  - intros (F & x & o & k & txt & S & _ & T & L & H & _). split; [exact F|].
+    destruct (first_token_sub t x _ S T) as (S' & _). pose proof (sub_range_in_tree t _ S') as R.
+    unfold l_end in R. cbn [fst snd tree_len] in R. rewrite L, H. exact R.
+Qed.
+
+Theorem core_ranges_in_tree : forall file links t ss,
+  core_of_tree file links t = Ok ss ->
+  Forall (fun r => r_file r = file /\ in_tree t (r_lo r) (r_hi r)) (file_rngs ss).
+Proof.
+  intros file links t ss E. pose proof (core_of_tree_safe file links t) as H. rewrite E in H. cbn [safe] in H.
+  unfold file_rngs. apply Forall_map. eapply Forall_impl; [|exact H]. intros p Hp. apply part_ok_in_tree. exact Hp.
+Qed.
+
+(** ... hence a slice of the tree text that starts at its lower end (with C01_lossless: of the parsed text, on
+    character boundaries; see proofs/BridgeText.v) *)
+Definition slice_of (txt : text) (lo hi : N) : Prop :=
+  exists pre mid suf, txt = pre ++ mid ++ suf /\ lo = bytes pre /\ hi = bytes pre + bytes mid.
+
+Lemma sub_range_slice t x : sub t x -> slice_of (tree_text t) (fst x) (l_end x).
+Proof.
+  intros S. destruct (sub_slice t x S) as (pre & suf & E & O). exists pre, (tree_text (snd x)), suf.
+  split; [exact E|]. split; [exact O|]. rewrite l_end_bytes, O. reflexivity.
+Qed.
+
+Theorem core_ranges_slices : forall file links t ss,
+  core_of_tree file links t = Ok ss ->
+  Forall (fun r => r_file r = file /\ slice_of (tree_text t) (r_lo r) (r_hi r)) (file_rngs ss).
+Proof.
+  intros file links t ss E. pose proof (core_of_tree_safe file links t) as H. rewrite E in H. cbn [safe] in H.
+  unfold file_rngs. apply Forall_map. eapply Forall_impl; [|exact H]. intros [r|i]; cbn [part_ok part_rng].
+  - intros (F & x & S & L & Hh). split; [exact F|]. rewrite L, Hh. apply sub_range_slice. exact S.
+  - intros (F & x & o & k & txt & S & _ & T & L & Hh & _). split; [exact F|].
+    destruct (first_token_sub t x _ S T) as (S' & _). pose proof (sub_range_slice t _ S') as R.
+    unfold l_end in R. cbn [fst snd tree_len] in R. rewrite L, Hh. exact R.
+Qed.
+
+(** * (b) every identifier carries the text of the token of the tree at exactly its range *)
+Lemma forall_flat_map_parts (P : ident -> Prop) (l : list part) :
+  Forall (fun p => match p with PI i => P i | PR _ => True end) l ->
+  Forall P (flat_map (fun p => match p with PI i => [i] | PR _ => [] end) l).
+Proof.
+  induction 1 as [|p l Hp _ IH]; cbn [flat_map]; [constructor|]. destruct p; cbn [app]; [exact IH|constructor; assumption].
+Qed.
+
+Theorem core_idents_are_tokens : forall file links t ss,
+  core_of_tree file links t = Ok ss ->
+  Forall (fun i => r_file (i_rng i) = file /\
+                   exists k, In (k, r_lo (i_rng i), r_hi (i_rng i), i_name i) (leaves t)) (file_idents ss).
+Proof.
+  intros file links t ss E. pose proof (core_of_tree_safe file links t) as H. rewrite E in H. cbn [safe] in H.
+  unfold file_idents. apply forall_flat_map_parts. eapply Forall_impl; [|exact H]. intros [r|i]; [intros; exact I|].
+  cbn [part_ok]. intros (F & x & o & k & txt & S & _ & T & L & Hh & Nm). split; [exact F|]. exists k.
+  destruct (first_token_sub t x _ S T) as (S' & _). pose proof (sub_in_tree t _ S') as R. cbn [fst snd] in R.
+  rewrite L, Hh, Nm. exact R.
+Qed.
+
+(** the token is the first token of an Identifier node; when the Identifier nodes have the shape the grammar gives
+    them (executable check [ident_shape]), it is an Id token *)
+Lemma ident_shape_node k cs : ident_shape (Node k cs) = true -> forall c, In c cs -> ident_shape c = true.
+Proof.
+  cbn [ident_shape]. intros H. apply andb_true_iff in H. destruct H as [_ H]. revert H.
+  induction cs as [|d r IH]; intros H c Hc; [contradiction|]. apply andb_true_iff in H. destruct H as [H1 H2].
+  destruct Hc as [->|Hc]; [exact H1|apply IH; assumption].
+Qed.
+
+Lemma ident_shape_sub t x : ident_shape t = true -> sub t x -> ident_shape (snd x) = true.
+Proof.
+  intros H S. induction S as [|x y S IH Hy]; [exact H|].
+  destruct x as [o [k cs|k tx]]; unfold lchildren in Hy; cbn [fst snd children_of] in Hy; [|contradiction].
+  apply with_offsets_in in Hy. eapply ident_shape_node; [exact IH|exact Hy].
+Qed.
+
+Lemma ident_first_token_is_id x o k txt :
+  ident_shape (snd x) = true -> l_kind x = S_Identifier -> first_token x = Some (o, Tok k txt) -> k = S_Id.
+Proof.
+  destruct x as [ox [kx cs|kx tx]]; unfold l_kind, first_token; cbn [fst snd kind_of]; intros H K T.
+  - subst kx. cbn [ident_shape] in H. apply andb_true_iff in H. destruct H as [H _].
+    replace (sk_eqb S_Identifier S_Identifier) with true in H by reflexivity.
+    destruct cs as [|[kc cc|kc tc] r]; cbn [first_tok] in T; try discriminate.
+    inversion T; subst. apply sk_eqb_true. exact H.
+  - subst kx. cbn [ident_shape] in H. discriminate H.
+Qed.
+
+Theorem core_idents_are_id_tokens : forall file links t ss,
+  ident_shape t = true ->
+  core_of_tree file links t = Ok ss ->
+  Forall (fun i => r_file (i_rng i) = file /\
+                   In (S_Id, r_lo (i_rng i), r_hi (i_rng i), i_name i) (leaves t)) (file_idents ss).
+Proof.
+  intros file links t ss Sh E. pose proof (core_of_tree_safe file links t) as H. rewrite E in H. cbn [safe] in H.
+  unfold file_idents. apply forall_flat_map_parts. eapply Forall_impl; [|exact H]. intros [r|i]; [intros; exact I|].
+  cbn [part_ok]. intros (F & x & o & k & txt & S & K & T & L & Hh & Nm). split; [exact F|].
+  assert (k = S_Id) by (eapply ident_first_token_is_id; [eapply ident_shape_sub; eauto|exact K|exact T]). subst k.
+  destruct (first_token_sub t x _ S T) as (S' & _). pose proof (sub_in_tree t _ S') as R. cbn [fst snd] in R.
+  rewrite L, Hh, Nm. exact R.
+Qed.
+
+(** determinism is definitional (core_of_tree is a function); what the Rust side calls "noncore" is [Err] *)
+Theorem core_of_tree_deterministic : forall file links t r1 r2,
+  core_of_tree file links t = r1 -> core_of_tree file links t = r2 -> r1 = r2.
+Proof. intros; congruence. Qed.
+
+(** * Include targets come from the links *)
+Definition wsafe {A : Type} (P : A -> Prop) (m : res A) : Prop := match m with Ok a => P a | _ => True end.
+Lemma wsafe_bind {A B} (P : B -> Prop) (m : res A) (f : A -> res B) :
+  (forall a, m = Ok a -> wsafe P (f a)) -> wsafe P (bind m f).
+Proof. destruct m; cbn [bind wsafe]; auto. Qed.
+Lemma wsafe_mapM {A B} (P : B -> Prop) (f : A -> res B) (l : list A) :
+  (forall x, In x l -> wsafe P (f x)) -> wsafe (Forall P) (mapM f l).
+Proof.
+  induction l as [|x l IH]; intros H; cbn [mapM]; [constructor|].
+  apply wsafe_bind. intros y Hy. apply wsafe_bind. intros ys Hys. cbn [wsafe]. constructor.
+  - pose proof (H x (or_introl eq_refl)) as W. rewrite Hy in W. exact W.
+  - assert (W : wsafe (Forall P) (mapM f l)) by (apply IH; intros z Hz; apply H; right; exact Hz). rewrite Hys in W. exact W.
+Qed.
+Lemma Forall_flat_map' {A B} (P : B -> Prop) (g : A -> list B) (l : list A) :
+  Forall (fun a => Forall P (g a)) l -> Forall P (flat_map g l).
+Proof. induction 1; cbn [flat_map]; [constructor|apply Forall_app; split; assumption]. Qed.
+
+Definition link_tgt (links : list (N * N * N)) (g : N) : Prop := exists lo hi, In (lo, hi, g) links.
+
+Lemma targets_all c : forall n,
+  (forall x, wsafe (fun l => Forall (link_tgt (cx_links c)) (flat_map stmt_targets l)) (c_stmts n c x)) /\
+  (forall x, wsafe (fun s => Forall (link_tgt (cx_links c)) (stmt_targets s)) (c_stmt n c x)).
+Proof.
+  induction n as [|n (IHl & IHs)]; [split; intros; exact I|].
+  split; intros x.
+  - cbn [c_stmts]. pose proof (wsafe_mapM (fun s => Forall (link_tgt (cx_links c)) (stmt_targets s)) (c_stmt n c)
+                                 (field x "statements") (fun y _ => IHs y)) as W.
+    destruct (mapM (c_stmt n c) (field x "statements")); cbn [wsafe] in *; auto. apply Forall_flat_map'. exact W.
+  - cbn [c_stmt]. destruct (l_kind x); try exact I; repeat (apply wsafe_bind; intros ? ?); cbn [wsafe stmt_targets];
+      repeat match goal with
+             | H : c_stmts n c ?sl = Ok ?b |- _ =>
+                 let W := fresh "W" in pose proof (IHl sl) as W; rewrite H in W; cbn [wsafe] in W; clear H
+             end; try (constructor; fail); try assumption.
+    + (* Include *)
+      unfold link_target. destruct (find _ (cx_links c)) as [[[lo hi] g]|] eqn:F; [|constructor].
+      apply find_some in F. destruct F as [F _]. cbn [snd]. constructor; [exists lo, hi; exact F|constructor].
+    + (* If *)
+      apply Forall_app. split; [assumption|].
+      match goal with H : opt_with (c_stmts n c) ?l = Ok ?el |- _ => destruct l as [|v r]; cbn [opt_with] in H end.
+      * match goal with H : Ok None = Ok _ |- _ => inversion H end. constructor.
+      * match goal with H : bind (c_stmts n c v) _ = Ok _ |- _ =>
+          destruct (c_stmts n c v) as [e| |] eqn:E; cbn [bind] in H; try discriminate; inversion H end.
+        pose proof (IHl v) as W'. rewrite E in W'. exact W'.
+Qed.
+
+Theorem core_targets_are_links : forall file links t ss,
+  core_of_tree file links t = Ok ss -> Forall (link_tgt links) (file_targets ss).
+Proof.
+  intros file links t ss E. unfold core_of_tree, c_file in E.
+  destruct (l_kind (0, t)); try discriminate. destruct (snd (0, t)); try discriminate.
+  destruct (need (field (0, t) "statement_list") "statement list") as [sl| |]; cbn [bind] in E; try discriminate.
+  pose proof (proj1 (targets_all (mkCx file links) (S (S (height t)))) sl) as W. rewrite E in W. exact W.
+Qed.
